@@ -139,7 +139,11 @@ def build_op(spec):
         op["fmt"] = "bl"
         op["desc"] = {"split": "none", "crit": "gas", "rules": True, "push0": "-push0" not in flags, "backend": "-greedy"}
         return op
-    return C.build_pipe_op(spec)
+    op = C.build_pipe_op(spec)
+    if op.get("peer_plan") and spec["index"] % 3 == 0:
+        # a reply-corrupting solver peer: the re-verification has to keep whatever it lets through equivalent
+        op["solver_mutator"] = {"seed": spec["index"], "calls": None}
+    return op
 
 
 def pairs_of(op, res):
@@ -172,6 +176,8 @@ def check_op(op, oracle_seed, k):
     viols = []
     for c in res["solver_calls"]:
         summ["probes"]["peer_" + c["kind"]] = summ["probes"].get("peer_" + c["kind"], 0) + 1
+    if op.get("solver_mutator"):
+        summ["faults"]["reply_corrupted"] = summ["faults"].get("reply_corrupted", 0) + len(res["records"].get("reply_mutations", []))
     for path, a, b in pairs:
         summ["evals"] += 1
         ca, cb = AJ.canon_items(a), AJ.canon_items(b)
